@@ -110,6 +110,7 @@ fn main() {
         "C16" => checks::c16::run(&ctx),
         "C17" => checks::c17::run(&ctx),
         "C18" => checks::c18::run(&ctx),
+        "C19" => checks::c19::run(&ctx),
         _ => {
             eprintln!("unknown property {prop}");
             2
